@@ -12,7 +12,7 @@ import (
 // report from a second source; afterwards the monitor must still serve a second blocking report.
 func c07scenario(second bool) {
 	verifyLog = nil
-	def := hcfg{}
+	def := hcfg{P: &hsub{X: 5}}
 	s0 := &hwsrc{hsrc{name: "s0", init: hval{setA: true, a: 0}}}
 	s1 := &hwsrc{hsrc{name: "s1", init: hval{setB: true, b: 0}}}
 	ctx, cancel := context.WithCancel(context.Background())
@@ -37,8 +37,11 @@ func c07scenario(second bool) {
 	}
 	bad := zzverif.Bool("bad")
 	before, bser := d.ViewVersion()
-	rerr := s0.wa.BlockingReportNewValue(rctx, mkValue(s0.t, hval{setA: true, a: 5, setBad: true, bad: bad}))
+	rerr := s0.wa.BlockingReportNewValue(rctx, mkValue(s0.t, hval{setA: true, a: 5, setBad: true, bad: bad, setPX: true, px: 50}))
 	after, aser := d.ViewVersion()
+	if bad {
+		zzverif.Assert(before.P != nil && before.P.X == 5 && after.P != nil && after.P.X == 5, "C07 a rejected value was written into the config the view points at")
+	}
 	switch {
 	case rerr == nil:
 		zzverif.Assert(!bad, "C07 a blocking report returned nil for a value that fails Verify")
